@@ -420,6 +420,8 @@ impl Driver {
             crate::verif::emit(crate::verif::BLOCKING_END, verif_addr, 0);
             let _ = completed.send(Entry::new(key.into_inner(), res));
             waker.wake();
+            #[cfg(compio_verif)]
+            crate::verif::emit(crate::verif::BLOCKING_WOKEN, verif_addr, 0);
         };
 
         while let Err(e) = self.pool.dispatch(closure) {
